@@ -1,8 +1,9 @@
 (** * C19 - misuse is rejected at the earliest point with the documented error.
-    Property theorems only (proofs: Proofs/ElabProofs.v, Proofs/CheckerFrame.v).
+    Property theorems only (proofs: Proofs/ElabProofs.v, Proofs/CheckerFrame.v, Proofs/CheckerAfter.v).
     Definition time = [define_function] / [define_class] of Model/Elab.v returning [Err];
     call time = the guards of [checker_call]. *)
 From ICV Require Import Base Bind Checker CheckerSpec CheckerFrame Elab ElabProofs.
+From ICV Require CheckerCase CheckerOracle CheckerAfter.
 Open Scope string_scope.
 Open Scope list_scope.
 
@@ -51,3 +52,23 @@ Proof.
     destruct Hm as [Hm|Hm]; congruence.
 Qed.
 Print Assumptions C19_reserved_at_call.
+
+(** For every case - any kind of callable, invariants around it or not: a keyword argument named [_ARGS] / [_KWARGS],
+    or - with postconditions - an argument bound to a parameter named [result] / [OLD], makes the whole call fail with
+    TypeError before the body runs, once the invariants in front of a method have been evaluated and hold.  This is the
+    executable statement [spec_C19_call] that the check evaluates on the implementation's observation, proved of the
+    model's observation for all cases (no side condition). *)
+Theorem C19_reserved_names_in_a_whole_call (c : CheckerCase.ccase) :
+  CheckerOracle.spec_C19_call c (fst (CheckerCase.run_case c)) (snd (CheckerCase.run_case c)) = true.
+Proof. exact (CheckerAfter.call_guard_sound c). Qed.
+Print Assumptions C19_reserved_names_in_a_whole_call.
+
+(** non-vacuity: a method with a precondition under an invariant, called with a keyword [_ARGS]: one event (the
+    invariant), then TypeError *)
+Example C19_whole_call_nonvacuous :
+  CheckerOracle.has_checker CheckerAfter.ex_guard_case && reserved_kw (CheckerCase.k_kwargs CheckerAfter.ex_guard_case)
+  && CheckerOracle.invs_hold_ CheckerAfter.ex_guard_case (CheckerOracle.invs_before CheckerAfter.ex_guard_case)
+                              (CheckerCase.k_store CheckerAfter.ex_guard_case) = true
+  /\ snd (CheckerCase.run_case CheckerAfter.ex_guard_case) = inr (XLib "TypeError" None)
+  /\ List.length (fst (CheckerCase.run_case CheckerAfter.ex_guard_case)) = 1%nat.
+Proof. exact CheckerAfter.guard_nonvacuous. Qed.
